@@ -56,6 +56,12 @@ func (o *Oracles) onPark(w *World, kind string) {
 	if !(strings.HasPrefix(kind, "src.") || strings.HasPrefix(kind, "dst.") || strings.HasPrefix(kind, "dlq.") || strings.HasPrefix(kind, "proc.")) {
 		return
 	}
+	if len(o.ap.inFlight) > 0 {
+		// plugin calls made on behalf of a live apply (in-place swap, validation) are not a
+		// restart - and the real restart can no longer be timed from outside in this episode
+		c.userStartSinceRecovering = true
+		return
+	}
 	now := w.now()
 	d := now - c.recoveringAt
 	c.recoveringAt = -1
@@ -98,6 +104,7 @@ func (o *Oracles) onControlEvent(w *World, e *Event) {
 		c.restartTimes = nil
 		c.restartInProgress = false
 	case "STATUS":
+		o.ap.statusEvents++
 		c.restartInProgress = false
 		switch e.N {
 		case 5:
